@@ -166,9 +166,50 @@ func evalCodec(w *World, fn *ssa.Function) *codecRes {
 
 // offsetOf resolves an index/bound to a constant offset, allowing one symbolic base per function
 // (records parsed in a loop: b[i+11], b[i:i+32]); the base value stands for offset 0.
+// cconst: a parameter of an inlined reader/writer closure whose actual is a constant (an offset).
+type cconst int
+
+// constOf evaluates v to a constant, looking through conversions, +/- and constant-bound parameters.
+func (e *codecEval) constOf(v ssa.Value, depth int) (int, bool) {
+	if depth > 6 {
+		return 0, false
+	}
+	if c, ok := constInt(v); ok {
+		return int(c), true
+	}
+	if x, ok := e.env[v]; ok {
+		if k, ok := x.(cconst); ok {
+			return int(k), true
+		}
+	}
+	switch x := v.(type) {
+	case *ssa.Convert:
+		return e.constOf(x.X, depth+1)
+	case *ssa.ChangeType:
+		return e.constOf(x.X, depth+1)
+	case *ssa.BinOp:
+		a, ok1 := e.constOf(x.X, depth+1)
+		b, ok2 := e.constOf(x.Y, depth+1)
+		if ok1 && ok2 {
+			switch x.Op {
+			case token.ADD:
+				return a + b, true
+			case token.SUB:
+				return a - b, true
+			}
+		}
+	}
+	return 0, false
+}
+
 func (e *codecEval) offsetOf(v ssa.Value) (int, bool) {
 	if c, ok := constInt(v); ok {
 		return int(c), true
+	}
+	if len(e.env) > 0 {
+		if k, ok := e.constOf(v, 0); ok {
+			return k, true
+		}
 	}
 	base, off := v, 0
 	if bo, ok := stripConv(v).(*ssa.BinOp); ok && bo.Op == token.ADD {
@@ -416,6 +457,11 @@ func (e *codecEval) callScalar(v ssa.Value, depth int) cscalar {
 		}
 		return s
 	}
+	// a small reader: a local closure (or in-module function) taking constant offsets and returning the scalar it
+	// decodes from a window it captured or was handed: evaluate its body with the actuals
+	if s, ok := e.inlineReader(c, depth); ok {
+		return s
+	}
 	var out cscalar
 	cc := c.Common()
 	args := append([]ssa.Value{}, cc.Args...)
@@ -627,6 +673,18 @@ func (e *codecEval) step(ins ssa.Instruction) {
 			n = wn.b.size - wn.base - lo
 		}
 		e.env[x] = cwin{wn.b, wn.base + lo, n}
+	case *ssa.UnOp:
+		// a load of a local cell that holds a window (a []byte parameter captured by a closure is spilled into one)
+		if x.Op == token.MUL {
+			if al, ok := x.X.(*ssa.Alloc); ok {
+				for _, st := range cellStores(al) {
+					if wn, ok := e.win(st.Val); ok {
+						e.env[x] = wn
+						break
+					}
+				}
+			}
+		}
 	case *ssa.Phi:
 		// windows: keep the first known; scalars handled lazily
 		for _, ed := range x.Edges {
@@ -1399,3 +1457,92 @@ func firstOfRecordList(v ssa.Value, depth int) ssa.Value {
 	}
 	return nil
 }
+
+
+// inlineReader evaluates a call of a scalar-returning local closure / in-module function whose arguments are constants
+// or windows and whose captured variables are windows.
+func (e *codecEval) inlineReader(c *ssa.Call, depth int) (cscalar, bool) {
+	if e.depth >= 2 || c.Call.IsInvoke() {
+		return cscalar{}, false
+	}
+	f := c.Call.StaticCallee()
+	mc, _ := c.Call.Value.(*ssa.MakeClosure)
+	if f == nil && mc != nil {
+		f, _ = mc.Fn.(*ssa.Function)
+	}
+	if f == nil || !e.w.fnSet[f] || f.Blocks == nil || len(f.Blocks) > 6 || f.Signature.Results().Len() != 1 {
+		return cscalar{}, false
+	}
+	if typeBytes(f.Signature.Results().At(0).Type()) == 0 {
+		return cscalar{}, false
+	}
+	sub := &codecEval{w: e.w, fn: f, env: map[ssa.Value]any{}, res: e.res, inputs: e.inputs, depth: e.depth + 1}
+	usable := false
+	for i, a := range c.Call.Args {
+		if i >= len(f.Params) {
+			break
+		}
+		if wn, ok := e.win(a); ok {
+			sub.env[f.Params[i]] = wn
+			usable = true
+		} else if k, ok := e.constOf(a, 0); ok {
+			sub.env[f.Params[i]] = cconst(k)
+		} else {
+			return cscalar{}, false
+		}
+	}
+	if mc != nil {
+		for i, fv := range f.FreeVars {
+			if i < len(mc.Bindings) {
+				if wn, ok := e.win(mc.Bindings[i]); ok {
+					sub.env[fv] = wn
+					usable = true
+				} else if al, ok := mc.Bindings[i].(*ssa.Alloc); ok {
+					// captured by reference: the cell holds the window
+					for _, st := range cellStores(al) {
+						if wn, ok := e.win(st.Val); ok {
+							sub.env[fv] = cwinCell{wn}
+							usable = true
+						}
+					}
+				}
+			}
+		}
+	}
+	if !usable {
+		return cscalar{}, false
+	}
+	var order []*ssa.BasicBlock
+	var walk func(b *ssa.BasicBlock)
+	walk = func(b *ssa.BasicBlock) {
+		order = append(order, b)
+		for _, ch := range b.Dominees() {
+			walk(ch)
+		}
+	}
+	walk(f.Blocks[0])
+	var ret *ssa.Return
+	for _, b := range order {
+		for _, ins := range b.Instrs {
+			if r, isRet := ins.(*ssa.Return); isRet {
+				ret = r
+				continue
+			}
+			// a load of a by-reference captured window
+			if u, ok := ins.(*ssa.UnOp); ok && u.Op == token.MUL {
+				if cell, ok := sub.env[u.X].(cwinCell); ok {
+					sub.env[u] = cell.w
+					continue
+				}
+			}
+			sub.step(ins)
+		}
+	}
+	if ret == nil || len(ret.Results) != 1 {
+		return cscalar{}, false
+	}
+	return sub.scalarOf(ret.Results[0], depth+1), true
+}
+
+// cwinCell: a captured variable (by reference) that holds a window.
+type cwinCell struct{ w cwin }
